@@ -1339,6 +1339,269 @@ def j(ctx):
 
 
 # ---------------------------------------------------------------------------
+# C03.k -- who may store a tuning parameter.
+#
+# The retransmission code reads `<message>.transport_tuning.P` (C03.h).  A tuning is admissible when it is (an instance
+# of) a subclass of TransportTuning that overrides P as a class attribute -- that is how the package's own tunings and
+# the documented user tunings are written, and it is what C03.g evaluates.  Python looks an attribute up in the
+# instance dictionary first (properties aside), so the override is what the reader sees only if NO instance of a class
+# in the TransportTuning hierarchy carries P in its own dictionary unless the creator of that instance supplied the
+# value.  The invariant is therefore over ALL writers of the names in TUNING:
+#   (1) a constructor the interpreter synthesises from the class body (dataclasses / attrs decorators: every annotated
+#       field is stored by the generated __init__, with the default *of the decorated class* when the caller passes
+#       nothing) -- a field named like a tuning parameter shadows every subclass override;
+#   (2) explicit stores on the instance in the methods of these classes (`self.P = v`, setattr, object.__setattr__):
+#       accepted only where the stored value is a parameter that defaults to None and the store is guarded by the
+#       parameter being given (nothing is stored for a tuning created without arguments); reported when a constructor
+#       method stores a constant / a defaulted parameter unconditionally; refused otherwise;
+#   (3) anything else that can write these names (a store of a TUNING name through another object anywhere in the
+#       package, the instance `__dict__`, a setattr with a computed name inside the hierarchy, `__getattribute__`,
+#       a metaclass, an unknown class decorator) is refused: the rule cannot tell what a reader then sees.
+_SYNTH = {"dataclasses.dataclass": "dataclass", "attr.s": "attrs", "attr.attrs": "attrs", "attr.define": "attrs", "attr.mutable": "attrs",
+          "attr.frozen": "attrs", "attr.dataclass": "attrs", "attrs.define": "attrs", "attrs.mutable": "attrs", "attrs.frozen": "attrs"}
+_FIELD_MAKERS = {"dataclasses.field", "attr.ib", "attr.attrib", "attr.field", "attrs.field"}
+_CTOR_METHODS = {"__init__", "__post_init__", "__attrs_post_init__", "__new__"}
+
+
+def _resolved_chain(prog, module, e):
+    c = chain(e)
+    if c is None:
+        return None
+    try:
+        return prog.resolve_in_module(module, c)
+    except Exception:
+        return c
+
+
+def _kw_const(call, name, default):
+    """value of the constant keyword `name` of a call (default when absent); AnalysisError when not a constant"""
+    if not isinstance(call, ast.Call):
+        return default
+    for k in call.keywords:
+        if k.arg == name:
+            if isinstance(k.value, ast.Constant):
+                return k.value.value
+            raise AnalysisError("%s: keyword %s is not a constant" % (ast.unparse(call)[:60], name))
+        if k.arg is None:
+            raise AnalysisError("%s: ** arguments in a class decorator" % ast.unparse(call)[:60])
+    return default
+
+
+def _synthesised_fields(prog, ci, seen=None):
+    """{name: ClassInfo that declares the field} of the names the interpreter-generated __init__ of class ci stores
+    on the instance; {} when ci has no generated constructor.  AnalysisError on a class decorator / metaclass the rule
+    does not know."""
+    kind, init = None, True
+    for d in ci.node.decorator_list:
+        q = _resolved_chain(prog, ci.module, d.func if isinstance(d, ast.Call) else d)
+        if q in _SYNTH:
+            kind = _SYNTH[q]
+            init = _kw_const(d, "init", True)
+            if isinstance(d, ast.Call) and d.args:
+                raise AnalysisError("%s: positional arguments of the class decorator %s" % (ci.qn, ast.unparse(d)[:60]))
+        else:
+            raise AnalysisError("class %s carries a decorator (%s) whose effect on the tuning parameters the rule cannot interpret" % (ci.qn, ast.unparse(d)[:60]))
+    for k in ci.node.keywords:
+        raise AnalysisError("class %s is created with the class keyword %s: attribute lookup on its instances is outside the rule's vocabulary" % (ci.qn, k.arg or "**"))
+    if kind is None or not init:
+        return {}
+    fields = {}
+    # fields of decorated ancestors are fields of this class as well
+    for b in ci.bases:
+        bci = prog.classes.get(b)
+        if bci is not None and bci is not ci:
+            fields.update(_inherited_fields(prog, bci))
+    fields.update(_own_fields(prog, ci, kind))
+    return fields
+
+
+def _own_fields(prog, ci, kind):
+    out = {}
+    for st in ci.node.body:
+        name = value = ann = None
+        if isinstance(st, ast.AnnAssign) and isinstance(st.target, ast.Name):
+            name, value, ann = st.target.id, st.value, st.annotation
+        elif kind == "attrs" and isinstance(st, ast.Assign) and len(st.targets) == 1 and isinstance(st.targets[0], ast.Name) and isinstance(st.value, ast.Call) \
+                and _resolved_chain(prog, ci.module, st.value.func) in _FIELD_MAKERS:
+            name, value = st.targets[0].id, st.value
+        if name is None:
+            continue
+        if ann is not None:
+            a = ann.value if isinstance(ann, ast.Subscript) else ann
+            text = ast.unparse(a) if not isinstance(a, ast.Constant) else str(a.value)
+            if text.split("[")[0].split(".")[-1].strip() in ("ClassVar", "InitVar"):
+                continue  # not stored on the instance
+        if isinstance(value, ast.Call) and _resolved_chain(prog, ci.module, value.func) in _FIELD_MAKERS:
+            if _kw_const(value, "init", True) is False and not any(k.arg in ("default_factory", "factory") for k in value.keywords):
+                continue  # init=False with a plain default: the generated __init__ stores nothing, the class attribute is read
+        out[name] = ci
+    return out
+
+
+def _inherited_fields(prog, ci):
+    """fields a decorated subclass inherits from ci (only decorated classes contribute)"""
+    kind = None
+    for d in ci.node.decorator_list:
+        q = _resolved_chain(prog, ci.module, d.func if isinstance(d, ast.Call) else d)
+        kind = _SYNTH.get(q, kind)
+    out = {}
+    for b in ci.bases:
+        bci = prog.classes.get(b)
+        if bci is not None and bci is not ci:
+            out.update(_inherited_fields(prog, bci))
+    if kind is not None:
+        out.update(_own_fields(prog, ci, kind))
+    return out
+
+
+def _guarded_stmts(body, guards=()):
+    """(statement, guards) for every statement below `body`; guards = tuple of (test, outcome) of the enclosing
+    if/while statements, None for an enclosing construct that is not a plain condition (loop, try, with, match)"""
+    for st in body:
+        yield st, guards
+        if isinstance(st, (ast.FunctionDef, ast.AsyncFunctionDef, ast.ClassDef)):
+            yield from _guarded_stmts(st.body, guards + (None,))
+        elif isinstance(st, ast.If):
+            yield from _guarded_stmts(st.body, guards + ((st.test, True),))
+            yield from _guarded_stmts(st.orelse, guards + ((st.test, False),))
+        else:
+            for field in ("body", "orelse", "finalbody"):
+                sub = getattr(st, field, None)
+                if isinstance(sub, list) and sub and isinstance(sub[0], ast.stmt):
+                    yield from _guarded_stmts(sub, guards + (None,))
+            for h in getattr(st, "handlers", []) or []:
+                yield from _guarded_stmts(h.body, guards + (None,))
+            for c in getattr(st, "cases", []) or []:
+                yield from _guarded_stmts(c.body, guards + (None,))
+
+
+def _own_exprs(st):
+    """the expressions evaluated by statement st itself (not those of the statements nested in it)"""
+    for f, v in ast.iter_fields(st):
+        for x in (v if isinstance(v, list) else [v]):
+            if isinstance(x, ast.AST) and not isinstance(x, (ast.stmt, ast.ExceptHandler, ast.match_case)):
+                yield from ast.walk(x)
+
+
+def _param_defaults(fnode):
+    a = fnode.args
+    pos = a.posonlyargs + a.args
+    out = {p.arg: None for p in pos}  # None = required
+    for p, d in zip(pos[len(pos) - len(a.defaults):], a.defaults):
+        out[p.arg] = d
+    for p, d in zip(a.kwonlyargs, a.kw_defaults):
+        out[p.arg] = d
+    return out
+
+
+@R.clause("C03.k", "a tuning parameter is found on the class of the attached tuning: no instance of the TransportTuning hierarchy carries one in its own dictionary unless its creator supplied it")
+def k(ctx):
+    prog = ctx.prog
+    base = prog.cls(TUNING_CLS)
+    hierarchy = []
+    for q in list(prog.mro(base.qn)) + list(prog.subclasses(base.qn)):
+        ci = prog.classes.get(q)
+        if ci is not None and ci not in hierarchy:
+            hierarchy.append(ci)
+    ctx.floor("classes of the TransportTuning hierarchy", len(hierarchy), 3)
+    refused = []
+    # (1) synthesised constructors
+    for ci in hierarchy:
+        cname = ci.qn.rsplit(".", 1)[-1]
+        fields = _synthesised_fields(prog, ci)
+        shadow = sorted(n for n in fields if n in TUNING)
+        for n in shadow:
+            ctx.ob("no generated constructor stores the tuning parameter on the instance", False, None, None,
+                   construct="%s: generated __init__ stores %s" % (cname, n),
+                   detail="the class decorator makes %s (declared in %s) an instance attribute that is set to the default of the decorated class whenever the caller passes nothing: "
+                          "a subclass that overrides %s as a class attribute is read with the base value" % (n, fields[n].qn.rsplit(".", 1)[-1], n))
+        if not shadow:
+            ctx.ob("no generated constructor stores a tuning parameter on the instance", True, None, None, construct="class %s" % cname,
+                   detail="generated fields: %s" % (", ".join(sorted(fields)) or "none"))
+    # (2) explicit stores in the methods of the hierarchy
+    inside = set()
+    for ci in hierarchy:
+        cname = ci.qn.rsplit(".", 1)[-1]
+        for fnode in [s for s in ci.node.body if isinstance(s, (ast.FunctionDef, ast.AsyncFunctionDef))]:
+            for sub in ast.walk(fnode):
+                inside.add(id(sub))
+            if fnode.name == "__getattribute__":
+                refused.append("%s defines __getattribute__: what a reader of a tuning parameter sees is outside the rule's vocabulary" % cname)
+                continue
+            decos = {ast.unparse(d) for d in fnode.decorator_list}
+            if "staticmethod" in decos:
+                recv = None
+            else:
+                a = fnode.args
+                first = (a.posonlyargs + a.args)[:1]
+                recv = first[0].arg if first else None
+            is_cls = "classmethod" in decos or fnode.name in ("__init_subclass__", "__class_getitem__")
+            defaults = _param_defaults(fnode)
+            fi = ci.methods.get(fnode.name)
+            stmts = list(_guarded_stmts(fnode.body))
+            for st, guards in stmts:
+                for e in _own_exprs(st):
+                    pname = value = None
+                    if isinstance(e, ast.Attribute) and isinstance(e.ctx, (ast.Store, ast.Del)) and e.attr in TUNING:
+                        if not (isinstance(e.value, ast.Name) and e.value.id == recv and not is_cls):
+                            refused.append("%s.%s writes %s: a run-time writer of a tuning parameter the rule cannot attribute to one instance" % (cname, fnode.name, ast.unparse(e)))
+                            continue
+                        pname = e.attr
+                        if isinstance(st, ast.Assign) and any(t is e for t in st.targets):
+                            value = st.value
+                        elif isinstance(st, ast.AnnAssign) and st.target is e:
+                            value = st.value
+                    elif isinstance(e, ast.Call) and chain(e.func) in ("setattr", "object.__setattr__", "delattr", "object.__delattr__"):
+                        if len(e.args) < 2 or not isinstance(e.args[1], ast.Constant):
+                            refused.append("%s.%s: %s stores an attribute with a computed name" % (cname, fnode.name, ast.unparse(e)[:70]))
+                            continue
+                        if e.args[1].value not in TUNING:
+                            continue
+                        if is_cls or not (isinstance(e.args[0], ast.Name) and e.args[0].id == recv):
+                            refused.append("%s.%s: %s writes a tuning parameter of the class / of another object at run time" % (cname, fnode.name, ast.unparse(e)[:70]))
+                            continue
+                        pname = e.args[1].value
+                        value = e.args[2] if len(e.args) == 3 and chain(e.func).endswith("setattr") or len(e.args) == 3 and chain(e.func).endswith("__setattr__") else None
+                    elif isinstance(e, ast.Attribute) and e.attr == "__dict__" or isinstance(e, ast.Call) and chain(e.func) == "vars":
+                        refused.append("%s.%s uses %s: stores through the instance dictionary are outside the rule's vocabulary" % (cname, fnode.name, ast.unparse(e)[:60]))
+                        continue
+                    if pname is None:
+                        continue
+                    construct = "%s.%s: %s" % (cname, fnode.name, stmt_text(st, 80))
+                    # accepted: the value is a parameter defaulting to None, stored only where it is known to be given
+                    v = value
+                    if isinstance(v, ast.Name) and isinstance(defaults.get(v.id), ast.Constant) and defaults[v.id].value is None \
+                            and sum(1 for s2, _ in stmts for x in _own_exprs(s2) if isinstance(x, ast.Name) and x.id == v.id and isinstance(x.ctx, ast.Store)) == 0 \
+                            and None not in guards \
+                            and any(_none_test(fi or K.synthetic_method(ci, fnode.name, v), g[0], v.id) == (not g[1]) for g in guards):
+                        # the branch outcome establishes `v is not None` / truthy: a tuning created without that argument
+                        # gets no instance attribute, so a class-level override stays visible
+                        ctx.ob("an instance attribute for a tuning parameter is stored only when the creator supplied the value", True, fi, st, construct=construct)
+                        continue
+                    constant = isinstance(v, ast.Constant) or isinstance(v, ast.UnaryOp) and isinstance(v.operand, ast.Constant) \
+                        or isinstance(v, ast.Name) and isinstance(defaults.get(v.id), ast.Constant) and defaults[v.id].value is not None \
+                        and not any(isinstance(x, ast.Name) and x.id == v.id and isinstance(x.ctx, ast.Store) for s2, _ in stmts for x in _own_exprs(s2))
+                    early_exit = any(isinstance(s2, (ast.Return, ast.Raise)) for s2, _ in stmts)
+                    if fnode.name in _CTOR_METHODS and not guards and constant and not early_exit:
+                        ctx.ob("no constructor stores a default for the tuning parameter on the instance", False, fi, st, construct=construct,
+                               detail="every instance gets its own %s = %s, whatever its class defines: a subclass that overrides %s as a class attribute is read with this value" % (
+                                   pname, ast.unparse(v) if not isinstance(v, ast.Name) else "%s (default %s)" % (v.id, ast.unparse(defaults[v.id])), pname))
+                    else:
+                        refused.append("%s stores the tuning parameter %s on the instance in a way the rule cannot decide (not `if given: store given`, not an unconditional default in a constructor)" % (construct, pname))
+    # (3) writers outside the hierarchy's methods: stores of a tuning name through any object, anywhere in the package
+    for m in prog.modules.values():
+        for n in ast.walk(m.tree):
+            if id(n) in inside:
+                continue
+            if isinstance(n, ast.Attribute) and isinstance(n.ctx, (ast.Store, ast.Del)) and n.attr in TUNING:
+                refused.append("%s writes %s at run time: a writer of a tuning parameter outside the TransportTuning class bodies" % (m.name, ast.unparse(n)))
+            elif isinstance(n, ast.Call) and chain(n.func) in ("setattr", "object.__setattr__", "delattr") and len(n.args) >= 2 and isinstance(n.args[1], ast.Constant) and n.args[1].value in TUNING:
+                refused.append("%s: %s writes a tuning parameter at run time" % (m.name, ast.unparse(n)[:70]))
+    if refused:
+        raise AnalysisError("; ".join(refused[:6]))
+    ctx.ob("the only writers of the tuning parameters are the class bodies of the TransportTuning hierarchy (%d classes)" % len(hierarchy), True, None, None, construct="TransportTuning hierarchy")
+
+
 F_MM = "aiocoap/messagemanager.py"
 R.seed("C03.d", F_MM, "        messageerror_monitor, next_retransmission = self._active_exchanges.pop(key)\n        # this should be a no-op", "        messageerror_monitor, next_retransmission = self._active_exchanges[key]\n        # this should be a no-op", "timed-out exchange stays in the table: the remote looks busy forever")
 R.seed("C03.e", F_MM, "        if message.code.is_request():\n            # Responses", "        if message.code.is_request() or message.code is EMPTY:\n            # Responses", "empty ACK/RST with a recently seen message ID dropped as duplicate: retransmissions continue")
@@ -1410,3 +1673,8 @@ R.seed("C03.g", F_CONST, _SPAN_RET, "        return TransportTuning.ACK_TIMEOUT 
 R.seed("C03.g", F_CONST, "        return self.MAX_TRANSMIT_SPAN + self.MAX_RTT\n", "        return sum(getattr(self, part) for part in (\"MAX_TRANSMIT_WAIT\", \"MAX_RTT\"))\n", "EXCHANGE_LIFETIME summed over a table of names that lists MAX_TRANSMIT_WAIT")
 R.seed("C03.g", F_CONST, "        return self.ACK_TIMEOUT\n", "        return getattr(self, \"EMPTY_ACK_DELAY\")\n", "PROCESSING_DELAY taken from the wrong parameter")
 R.seed("C03.g", F_CONST, "            * (2 ** (self.MAX_RETRANSMIT + 1) - 1)\n", "            * (pow(2, self.MAX_RETRANSMIT) - 1)\n", "MAX_TRANSMIT_WAIT with the exponent of MAX_TRANSMIT_SPAN, spelled with pow()")
+_CLS_HEAD = "class TransportTuning:\n"
+_REL = "    reliability: bool | None = None\n"
+R.seed("C03.k", F_CONST, _CLS_HEAD, "from dataclasses import dataclass\n\n\n@dataclass(kw_only=True)\nclass TransportTuning:\n    MAX_RETRANSMIT: int = 4\n", "generated __init__ stores the base default of MAX_RETRANSMIT on every instance: subclass overrides are shadowed")
+R.seed("C03.k", F_CONST, _REL, _REL + "\n    def __init__(self, ACK_TIMEOUT=2.0):\n        self.ACK_TIMEOUT = ACK_TIMEOUT\n\n", "hand-written constructor with a defaulted keyword: the instance attribute shadows subclass overrides")
+R.seed("C03.k", F_CONST, _REL, _REL + "\n    def __init__(self):\n        setattr(self, \"ACK_RANDOM_FACTOR\", 1.5)\n\n", "constant stored on every instance through setattr")
